@@ -166,6 +166,8 @@ def special_types():
         # enums: 0 / 1 / 3 values, one named UNKNOWN
         enum("Enum1", ["SOLE"], PKG),
         enum("Enum3", ["ONE", "TWO_2", "UNKNOWN_VALUE"], PKG),
+        # values whose order as wire names differs from their order as Rust identifiers
+        enum("EnumOrd", ["INACTIVE", "IN_PROGRESS", "READ_ONLY", "READABLE", "A_B", "AB", "B1", "B_2", "Z", "A"], PKG),
         # unions: 0 / 1 / 3 variants, one named unknown
         union("Union0", [], PKG),
         union("Union1", [field("only", S)], PKG),
